@@ -33,6 +33,28 @@ ImplOrderCls(W, t1, t2) ==
   ELSE "NONE"
 ImplSubCls(W, c, t) == IsSub(W, c, t.c)
 
+(* the same for annotation terms that may be value-dependent (dep / lit):   *)
+(* subclasscheck(c, D) = subclasscheck(c, bound(D));  D.__type_order__:     *)
+(* against another dependent type the order of the bounds (equal bounds:    *)
+(* unordered), against a class LESS iff the class is comparable with the    *)
+(* bound, else NONE                                                         *)
+OppO(o) == IF o = "LESS" THEN "MORE" ELSE IF o = "MORE" THEN "LESS" ELSE o
+BoundC(t) == IF t.k = "cls" THEN t.c ELSE t.bound.c
+SameT(t1, t2) ==
+  IF t1.k = "lit" /\ t2.k = "lit"
+  THEN t1.bound = t2.bound /\ {t1.vals[j] : j \in DOMAIN t1.vals} = {t2.vals[j] : j \in DOMAIN t2.vals}
+  ELSE t1 = t2
+DepHook(W, d, o) ==
+  IF o.k # "cls"
+  THEN LET ord == ImplOrderCls(W, d.bound, o.bound) IN IF ord = "SAME" THEN "NONE" ELSE ord
+  ELSE IF IsSub(W, o.c, d.bound.c) \/ IsSub(W, d.bound.c, o.c) THEN "LESS" ELSE "NONE"
+ImplOrderT(W, t1, t2) ==
+  IF SameT(t1, t2) THEN "SAME"
+  ELSE IF t1.k = "cls" /\ t2.k = "cls" THEN ImplOrderCls(W, t1, t2)
+  ELSE IF t1.k # "cls" THEN DepHook(W, t1, t2)
+  ELSE OppO(DepHook(W, t2, t1))
+ImplSubT(W, c, t) == IsSub(W, c, BoundC(t))
+
 (***************************************************************************)
 (* sort_types for a symmetric order: layer index of every available type.  *)
 (* deps[t] = the available types strictly more specific than t; a layer is *)
@@ -47,7 +69,7 @@ PeelLayers(R, D, acc) ==
        ELSE PeelLayers(R \ ready, D, Append(acc, ready))
 
 LevelsSym(W, A) ==
-  LET D == [t \in A |-> {u \in A : ImplOrderCls(W, u, t) = "LESS"}]
+  LET D == [t \in A |-> {u \in A : ImplOrderT(W, u, t) = "LESS"}]
       layers == PeelLayers(A, D, <<>>)
       n == Len(layers)
   IN [t \in A |-> n - (CHOOSE j \in 1..n : t \in layers[j])]
@@ -58,8 +80,8 @@ LevelsSym(W, A) ==
 RegTypesPos(M, p) == {m.pos[p] : m \in {x \in M : Len(x.pos) >= p}}
 RegTypesKw(M, k)  == {m.kwt[KwIdx(m, k)] : m \in {x \in M : HasKw(x, k)}}
 
-AvailPos(W, M, p, c) == {t \in RegTypesPos(M, p) : ImplSubCls(W, c, t)}
-AvailKw(W, M, k, c)  == {t \in RegTypesKw(M, k) : ImplSubCls(W, c, t)}
+AvailPos(W, M, p, c) == {t \in RegTypesPos(M, p) : ImplSubT(W, c, t)}
+AvailKw(W, M, k, c)  == {t \in RegTypesKw(M, k) : ImplSubT(W, c, t)}
 
 ImplFilter(m, call) ==
   /\ m.reqpos <= Len(call.pos) /\ Len(call.pos) <= Len(m.pos)
@@ -173,13 +195,13 @@ DeclAt(m, call, p) ==
 KF_levels(W, M, call) ==
   LET S == ApplicableSet(W, M, call)
       P == 1..(Len(call.pos) + Len(call.kwn))
-      Unrel(a, b, p) == ~SameOrSubCls(W, DeclAt(a, call, p), DeclAt(b, call, p))
-                        /\ ~SameOrSubCls(W, DeclAt(b, call, p), DeclAt(a, call, p))
+      Unrel(a, b, p) == ~TypeLE(W, DeclAt(a, call, p), DeclAt(b, call, p))
+                        /\ ~TypeLE(W, DeclAt(b, call, p), DeclAt(a, call, p))
   IN \E a, b \in S :
        /\ a # b /\ a.prio = b.prio
        /\ \E p \in P :
             /\ Unrel(a, b, p)
-            /\ \/ \A q \in P \ {p} : Unrel(a, b, q) \/ SameOrSubCls(W, DeclAt(a, call, q), DeclAt(b, call, q))
-               \/ \A q \in P \ {p} : Unrel(a, b, q) \/ SameOrSubCls(W, DeclAt(b, call, q), DeclAt(a, call, q))
+            /\ \/ \A q \in P \ {p} : Unrel(a, b, q) \/ TypeLE(W, DeclAt(a, call, q), DeclAt(b, call, q))
+               \/ \A q \in P \ {p} : Unrel(a, b, q) \/ TypeLE(W, DeclAt(b, call, q), DeclAt(a, call, q))
 
 =============================================================================
